@@ -36,7 +36,5 @@ Theorem C19_bad_variation_names_the_flag : forall o f i r st,
   o_logger o = true -> znth_opt (f_vars f) i = None ->
   get_variation o f i r st =
   (Done (err_detail KMalformed), mkst (s_cache st) (s_status st) (OLog (f_key f) (EBadVariation i) :: s_trace st)).
-Proof.
-  intros o f i r st Hl Hv. unfold get_variation. rewrite Hv. unfold bind, log. rewrite Hl. reflexivity.
-Qed.
+Proof. exact bad_variation_names_the_flag. Qed.
 Print Assumptions C19_bad_variation_names_the_flag.
